@@ -106,49 +106,49 @@ macro_rules! push_harness {
     };
 }
 
-// @verif prop=C17,C16,C01 tier=quick timeout=600 mem=6 unwind=34 leakcheck=1
+// @verif prop=C17,C16,C01 tier=quick timeout=1200 mem=6 unwind=34 leakcheck=1
 // @enc hvec::HVec::push hvec::HVec::with_size hvec::HVec::drain hvec::Drain::next_vp hvec::Drain::next_unchecked hvec::align hvec::align_off hvec::HVec::drop
 // @sym fill level: every multiple of 8 in 0..=256; payload bytes and vtable word arbitrary
 // @bound one push + one drain step from an arbitrary fill level (inductive step); T = zero-sized; capacity 256
 // @assume growth callback = harness closure honouring expand_storage's contract (fresh buffer with >= req free); CBMC bases are maximally aligned
 push_harness!(h_push_zst, (), 256);
-// @verif prop=C17,C16,C01 tier=quick timeout=600 mem=6 unwind=34 leakcheck=1
+// @verif prop=C17,C16,C01 tier=quick timeout=1200 mem=6 unwind=34 leakcheck=1
 // @enc as h_push_zst
 // @sym as h_push_zst; T = u8 (size 1, align 1)
 // @bound one push + one drain step from an arbitrary fill level; capacity 256
 // @assume as h_push_zst
 push_harness!(h_push_u8, u8, 256);
-// @verif prop=C17,C16,C01 tier=quick timeout=600 mem=6 unwind=34 leakcheck=1
+// @verif prop=C17,C16,C01 tier=quick timeout=1200 mem=6 unwind=34 leakcheck=1
 // @enc as h_push_zst
 // @sym as h_push_zst; T = [u8;7] (size 7, align 1)
 // @bound one push + one drain step; capacity 256
 // @assume as h_push_zst
 push_harness!(h_push_b7, [u8; 7], 256);
-// @verif prop=C17,C16,C01 tier=quick timeout=600 mem=6 unwind=34 leakcheck=1
+// @verif prop=C17,C16,C01 tier=quick timeout=1200 mem=6 unwind=34 leakcheck=1
 // @enc as h_push_zst
 // @sym as h_push_zst; T = [u64;3] (size 24, align 8)
 // @bound one push + one drain step; capacity 256
 // @assume as h_push_zst
 push_harness!(h_push_w3, [u64; 3], 256);
-// @verif prop=C17,C16,C01 tier=quick timeout=600 mem=6 unwind=34 leakcheck=1
+// @verif prop=C17,C16,C01 tier=quick timeout=1200 mem=6 unwind=34 leakcheck=1
 // @enc as h_push_zst
 // @sym as h_push_zst; T = 16-aligned 16 bytes
 // @bound one push + one drain step; capacity 256
 // @assume as h_push_zst
 push_harness!(h_push_a16, A16x2, 256);
-// @verif prop=C17,C16,C01 tier=quick timeout=600 mem=6 unwind=34 leakcheck=1
+// @verif prop=C17,C16,C01 tier=quick timeout=1200 mem=6 unwind=34 leakcheck=1
 // @enc as h_push_zst
 // @sym as h_push_zst; T = 32-aligned 32 bytes
 // @bound one push + one drain step; capacity 256
 // @assume as h_push_zst
 push_harness!(h_push_a32, A32x4, 256);
-// @verif prop=C17,C16,C01 tier=quick timeout=600 mem=6 unwind=34 leakcheck=1
+// @verif prop=C17,C16,C01 tier=quick timeout=1200 mem=6 unwind=34 leakcheck=1
 // @enc as h_push_zst
 // @sym as h_push_zst; T = 64-aligned 64 bytes; fill level every multiple of 8 in 0..=512
 // @bound one push + one drain step; capacity 512
 // @assume as h_push_zst
 push_harness!(h_push_a64, A64x8, 512);
-// @verif prop=C17,C16,C01 tier=thorough timeout=900 mem=16 unwind=34 leakcheck=1
+// @verif prop=C17,C16,C01 tier=thorough timeout=1200 mem=16 unwind=34 leakcheck=1
 // @enc as h_push_zst
 // @sym as h_push_zst; T = 128-aligned 128 bytes; fill level every multiple of 8 in 0..=1024
 // @bound one push + one drain step; capacity 1024
@@ -162,7 +162,7 @@ push_harness!(h_push_a128, A128x16, 1024);
 push_harness!(h_push_a64_big, A64x17, 1024);
 
 // align(): result is the next multiple of pow2 at or after p, less than pow2 away, for every pow2 alignment 1..128
-// @verif prop=C17,C16 tier=quick timeout=600 mem=6 unwind=10
+// @verif prop=C17,C16 tier=quick timeout=1200 mem=6 unwind=10
 // @enc hvec::align hvec::align_off
 // @sym offset into a 512-byte buffer: any; alignment: any power of two 1..128
 // @bound single call
@@ -220,19 +220,19 @@ macro_rules! expand_harness {
         }
     };
 }
-// @verif prop=C17,C16,C01 tier=quick timeout=900 mem=8 unwind=4 restrict_vtable=1
+// @verif prop=C17,C16,C01 tier=quick timeout=1200 mem=8 unwind=4 restrict_vtable=1
 // @enc queue::flat::FnOnceQueue::expand_storage queue::flat::FnOnceQueue::push_aux hvec::HVec::push hvec::HVec::with_size
 // @sym no buffer yet (capacity 0); pending item requirement req: every multiple of 8 in 8..=4200
 // @bound one growth step from the initial state
 // @assume buffer contents are not walked (mem::forget at the end)
 expand_harness!(h_expand_from_empty, 0);
-// @verif prop=C17,C16,C01 tier=quick timeout=900 mem=8 unwind=4 restrict_vtable=1
+// @verif prop=C17,C16,C01 tier=quick timeout=1200 mem=8 unwind=4 restrict_vtable=1
 // @enc as h_expand_from_empty
 // @sym capacity 1024, fill level every multiple of 8 in 0..=1024, req every multiple of 8 in 8..=4200 that does not fit
 // @bound one growth step from an arbitrary fill level (inductive step over the 1 KiB boundary)
 // @assume as h_expand_from_empty
 expand_harness!(h_expand_from_1k, 1024);
-// @verif prop=C17,C16,C01 tier=quick timeout=900 mem=8 unwind=4 restrict_vtable=1
+// @verif prop=C17,C16,C01 tier=quick timeout=1200 mem=8 unwind=4 restrict_vtable=1
 // @enc as h_expand_from_empty
 // @sym capacity 2048, fill level every multiple of 8 in 0..=2048, req every multiple of 8 in 8..=4200 that does not fit
 // @bound one growth step from an arbitrary fill level (2 KiB boundary)
@@ -385,7 +385,7 @@ fn q_flat_exec() {
 fn q_flat_drop() {
     queue_spec!(Q<Log>, false, false);
 }
-// @verif prop=C17,C18 tier=quick timeout=700 mem=20 unwind=9 restrict_vtable=1 leakcheck=1
+// @verif prop=C17,C18 tier=quick timeout=1200 mem=20 unwind=9 restrict_vtable=1 leakcheck=1
 // @enc queue::boxed::FnOnceQueue::{new,push,execute,is_empty} (src/queue/boxed.rs compiled beside the flat queue)
 // @sym as q_flat_exec
 // @bound the same 3-closure script, executed twice then dropped
@@ -395,7 +395,7 @@ fn q_flat_drop() {
 fn q_boxed_exec() {
     queue_spec!(boxed::FnOnceQueue<Log>, true, false);
 }
-// @verif prop=C17,C18 tier=quick timeout=700 mem=20 unwind=9 restrict_vtable=1 leakcheck=1
+// @verif prop=C17,C18 tier=quick timeout=1200 mem=20 unwind=9 restrict_vtable=1 leakcheck=1
 // @enc queue::boxed::FnOnceQueue::{new,push,is_empty} + Vec drop
 // @sym as q_flat_exec
 // @bound the same 3-closure script, dropped un-run
@@ -455,7 +455,7 @@ macro_rules! one_record {
         kani::cover!(true, "script completed");
     }};
 }
-// @verif prop=C17,C16,C01 tier=quick timeout=700 mem=20 unwind=9 restrict_vtable=1 leakcheck=1 unwindset=fn:FnOnceQueue::<.*>::execute$:1,fn:FnOnceQueue<.*Drop>::drop$:1,drain_for_each.*\.0$:3
+// @verif prop=C17,C16,C01 tier=quick timeout=1200 mem=20 unwind=9 restrict_vtable=1 leakcheck=1 unwindset=fn:FnOnceQueue::<.*>::execute$:1,fn:FnOnceQueue<.*Drop>::drop$:1,drain_for_each.*\.0$:3
 // @enc queue::flat::FnOnceQueue::{new,push,push_aux,execute,is_empty,drop,drain_for_each,expand_storage} hvec::* CallItem::{call,drop}
 // @sym 32-aligned 32-byte payload (all bytes)
 // @bound one record (32-aligned capture + drop token): push, execute, drop
@@ -465,7 +465,7 @@ macro_rules! one_record {
 fn q_flat1_exec() {
     one_record!(true);
 }
-// @verif prop=C17,C16,C01 tier=quick timeout=700 mem=20 unwind=9 restrict_vtable=1 leakcheck=1 unwindset=fn:FnOnceQueue::<.*>::execute$:1,fn:FnOnceQueue<.*Drop>::drop$:1,drain_for_each.*\.0$:3
+// @verif prop=C17,C16,C01 tier=quick timeout=1200 mem=20 unwind=9 restrict_vtable=1 leakcheck=1 unwindset=fn:FnOnceQueue::<.*>::execute$:1,fn:FnOnceQueue<.*Drop>::drop$:1,drain_for_each.*\.0$:3
 // @enc as q_flat1_exec (drop path)
 // @sym as q_flat1_exec
 // @bound one record: push, drop un-run
@@ -474,6 +474,60 @@ fn q_flat1_exec() {
 #[kani::unwind(9)]
 fn q_flat1_drop() {
     one_record!(false);
+}
+
+// Two records across one buffer growth: the first record stays in the old 1 KiB buffer, which is chained into the
+// new one as its first item.
+macro_rules! two_records_growth {
+    ($run:expr) => {{
+        unsafe { DROPS = [0; 8] };
+        let v: u64 = kani::any();
+        let mut q: Q<Log> = Q::new();
+        let t1 = Tok(1);
+        q.push(move |s: &mut Log| {
+            s.rec(2, v);
+            drop(t1);
+        });
+        let mut payload = [0u8; 1016];
+        payload[0] = v as u8;
+        payload[1015] = (v >> 8) as u8;
+        let t2 = Tok(2);
+        q.push(move |s: &mut Log| {
+            s.rec(4, payload[0] as u64 + ((payload[1015] as u64) << 8));
+            drop(t2);
+        });
+        assert!(q.storage.cap() == 2048, "growth expected");
+        let mut l = Log::new();
+        if $run {
+            q.execute(&mut l);
+            assert!(q.is_empty() && l.n == 2 && l.ids[0] == 2 && l.vals[0] == v && l.ids[1] == 4, "C01/C17: order or data wrong across the buffer growth");
+            assert!(l.vals[1] == (v as u8) as u64 + ((((v >> 8) as u8) as u64) << 8));
+        }
+        drop(q);
+        assert!(l.n == if $run { 2 } else { 0 }, "C01: closure ran on drop / ran twice");
+        assert!(drops(1) == 1 && drops(2) == 1, "C16/C17: a captured value (in the chained old buffer or the new one) was not dropped exactly once");
+        kani::cover!(true, "script completed");
+    }};
+}
+// @verif prop=C17,C16,C01,C05 tier=thorough timeout=3000 mem=30 unwind=9 restrict_vtable=1 leakcheck=1 unwindset=fn:FnOnceQueue::<.*>::execute$:2,fn:FnOnceQueue<.*Drop>::drop$:2,drain_for_each.*\.0$:3
+// @enc queue::flat::FnOnceQueue::{push,push_aux,expand_storage,execute,drop,drain_for_each} (chained-buffer closure) hvec::*
+// @sym payload word
+// @bound 2 records, one growth 1 KiB -> 2 KiB; execute then drop
+// @assume -Z restrict-vtable
+#[kani::proof]
+#[kani::unwind(9)]
+fn q_flat_grow2_exec() {
+    two_records_growth!(true);
+}
+// @verif prop=C17,C16,C01,C05 tier=thorough timeout=3000 mem=30 unwind=9 restrict_vtable=1 leakcheck=1 unwindset=fn:FnOnceQueue::<.*>::execute$:2,fn:FnOnceQueue<.*Drop>::drop$:2,drain_for_each.*\.0$:3
+// @enc as q_flat_grow2_exec (drop path through the chained buffer)
+// @sym payload word
+// @bound 2 records, one growth; dropped un-run
+// @assume -Z restrict-vtable
+#[kani::proof]
+#[kani::unwind(9)]
+fn q_flat_grow2_drop() {
+    two_records_growth!(false);
 }
 
 #[cfg(uazu_replay_hvec)]
